@@ -620,6 +620,10 @@ def run_C01(ctx):
     r4 = ctx.tlc("MC_C01types", cfg="MC_C01types_quick.cfg" if ctx.quick else "MC_C01types_thorough.cfg", timeout=1800)
     res4 = ctx.vh_isolated("types-build", r4.out, chunk=4000, timeout=600, sig_prefix="c01")
     ctx.absorb(res4, "G:types-build")
+    # 'or' diamonds: the walk with a visited set is linear (model); the time of the real build is measured
+    res5 = ctx.vh_isolated("types-chain", r4.out, chunk=1, tag="D", timeout=120, sig_prefix="c01")
+    ctx.absorb(res5, "G:types-chain(or diamonds)")
+    ctx.cov["or_diamond_timings"] = (res5.get("extra") or {}).get("timings")
     # fuzz
     n = 300000 if ctx.quick else 6000000
     fz = _fuzz_ranges(ctx, ctx.seed, n)
